@@ -57,9 +57,13 @@ def bint_reduce_range(o, k):
 def bint_reduce_unrelated_dtype(o, k):
     """reduce(add) of bounded-integer data over a variable it does not mention multiplies by a real Number"""
     p = _prog_of(o)
-    if p is None or o.get("kind") != "type" or "output dtype 'real', predicted" not in o.get("detail", ""):
+    d = o.get("detail", "")
+    if p is None or o.get("kind") != "type" or not ("output dtype 'real', predicted" in d or "output dtype real, predicted bounded integer" in d):
         return False
     for n in _nodes(p):
+        # the same multiplication by a real Number happens when the constant inputs of a Constant are summed out
+        if n[0] == "reduce" and n[1] in ("add", "mul") and n[2][0] == "constant" and _is_int(n[2]) and any(name in dict(n[2][1]) for name, _ in n[3]):
+            return True
         if n[0] == "reduce" and n[1] in ("add", "mul") and _is_int(n[2]):
             try:
                 ins = type_of(n[2])[0]
